@@ -256,10 +256,30 @@ def case_line(case):
     raise ValueError(fn)
 
 
+def _impl(fn):
+    """The implementation function a case calls.  All of the harness's own attribute access happens here, outside
+    the try block of run_impl: a name the harness cannot find is HarnessBlind, never an implementation outcome."""
+    from oslo_utils import strutils, uuidutils
+    import whitebox
+    if fn == 'prim/fmtuuid':
+        f = whitebox.uuid_normalizer()
+        if f is None:
+            raise whitebox.HarnessBlind('uuidutils: no private helper behaves like _format_uuid_string')
+        return f
+    if fn.startswith('prim/'):
+        return None
+    mod, name = {'bool': (strutils, 'bool_from_string'), 'boolstr': (strutils, 'is_valid_boolstr'),
+                 'intbool': (strutils, 'int_from_bool_as_string'), 'intlike': (strutils, 'is_int_like'),
+                 'valint': (strutils, 'validate_integer'), 'strlen': (strutils, 'check_string_length'),
+                 'uuid': (uuidutils, 'is_uuid_like')}[fn]
+    return whitebox.public_function(mod, name)
+
+
 def run_impl(case):
     """Outcome of the real function, in the driver's reply format."""
-    from oslo_utils import strutils, uuidutils
     fn = case['fn']
+    f = _impl(fn)
+    obj = obj_of(case['value']) if 'value' in case else None
     try:
         if fn.startswith('prim/'):
             p = fn[5:]
@@ -272,34 +292,34 @@ def run_impl(case):
             if p == 'lower':
                 return common.hexs(case['s'].lower())
             if p == 'fmtuuid':
-                return common.hexs(uuidutils._format_uuid_string(case['s']))
+                r = f(case['s'])
+                return common.hexs(r) if isinstance(r, str) else 'other:%r' % (r,)
             if p == 'str':
                 return common.hexs(str(int_of_text(case['n'])))
-        obj = obj_of(case['value'])
         if fn == 'bool':
-            r = strutils.bool_from_string(obj, strict=case['strict'], default=SENTINEL)
+            r = f(obj, strict=case['strict'], default=SENTINEL)
             if r is SENTINEL:
                 return 'default'
             if r is True or r is False:
                 return 'val:%d' % r
             return 'other:%r' % (r,)
         if fn == 'boolstr':
-            r = strutils.is_valid_boolstr(obj)
+            r = f(obj)
             return '%d' % r if isinstance(r, bool) else 'other:%r' % (r,)
         if fn == 'intbool':
-            r = strutils.int_from_bool_as_string(obj)
+            r = f(obj)
             return '%d' % r if type(r) is int else 'other:%r' % (r,)
         if fn == 'intlike':
-            r = strutils.is_int_like(obj)
+            r = f(obj)
             return '%d' % r if isinstance(r, bool) else 'other:%r' % (r,)
         if fn == 'valint':
-            r = strutils.validate_integer(obj, 'v', case['min'], case['max'])
+            r = f(obj, 'v', case['min'], case['max'])
             return 'ok:' + text_of_int(r) if type(r) is int else 'other:%r' % (r,)
         if fn == 'strlen':
-            r = strutils.check_string_length(obj, 'v', case['min'], case['max'])
+            r = f(obj, 'v', case['min'], case['max'])
             return 'ok' if r is None else 'other:%r' % (r,)
         if fn == 'uuid':
-            r = uuidutils.is_uuid_like(obj)
+            r = f(obj)
             return '%d' % r if isinstance(r, bool) else 'other:%r' % (r,)
     except Exception as e:      # the class name is the canonical outcome
         return type(e).__name__
@@ -358,8 +378,13 @@ def other_values(rng):
 
 
 def words_now():
-    from oslo_utils import strutils
-    return list(strutils.TRUE_STRINGS), list(strutils.FALSE_STRINGS)
+    """the tree's word tables, for the generators only (the oracle uses DOC_TRUE/DOC_FALSE); if they cannot be
+    located the generators fall back to the documented words"""
+    try:
+        t, f = C14_gen.word_tables()
+        return list(t), list(f)
+    except Exception:
+        return list(DOC_TRUE), list(DOC_FALSE)
 
 
 def gen_bool_values(rng, n, alphabet):
@@ -585,8 +610,20 @@ DECORATIONS = {
 }
 
 
+class _Pub:
+    """public functions of a module, resolved through whitebox.public_function (HarnessBlind if gone)"""
+
+    def __init__(self, modname):
+        self._modname = modname
+
+    def __getattr__(self, name):
+        import importlib
+        import whitebox
+        return whitebox.public_function(importlib.import_module(self._modname), name)
+
+
 def gen_uuid(rng, n, alphabet):
-    from oslo_utils import uuidutils
+    uuidutils = _Pub('oslo_utils.uuidutils')
     out = []
     for ln in (30, 31, 32, 33, 34):
         for dname, dec in sorted(DECORATIONS.items()):
@@ -705,8 +742,22 @@ def is_nontrivial(case, tag, impl):
     return tag.startswith(NEAR_TAGS)
 
 
+def public_view_of_fmtuuid(case):
+    """When the tree has no locatable normalisation helper, the same normalisation is observed through the public
+    is_uuid_like: the probe text padded with zeros to 32 hex digits is UUID-like iff the decoration is removed the
+    way the model removes it."""
+    s = case['s']
+    return {'fn': 'uuid', 'value': vstr(s + '0' * max(0, 32 - sum(1 for c in s if c in HEXL + 'ABCDEF')))}
+
+
 def correspondence(ctx):
+    import whitebox
     cases = gen_cases(ctx, DOMAIN)
+    if whitebox.uuid_normalizer() is None:
+        ctx.notes.append('uuidutils: no private helper behaves like _format_uuid_string; its normalisation is observed '
+                         'through is_uuid_like only')
+        cases = [((public_view_of_fmtuuid(c), 'prim-via-public') if c['fn'] == 'prim/fmtuuid' else (c, t))
+                 for c, t in cases]
     lines = [case_line(c) for c, _ in cases]
     replies = ctx.driver.ask_many(lines)
     out = []
@@ -864,25 +915,45 @@ def check_case(case):
     return None
 
 
+class _Raised:
+    def __init__(self, e):
+        self.name = type(e).__name__
+
+    def __repr__(self):
+        return '<raised %s>' % self.name
+
+
+def _call(f, *a, **k):
+    """call the implementation; an exception is a value (it never equals / is an expected result)"""
+    try:
+        return f(*a, **k)
+    except Exception as e:
+        return _Raised(e)
+
+
 def relations(rng, n):
     """Cross-function clauses; returns a list of (case, why)."""
-    from oslo_utils import strutils, uuidutils
+    strutils, uuidutils = _Pub('oslo_utils.strutils'), _Pub('oslo_utils.uuidutils')
+    gen, like, bfs = uuidutils.generate_uuid, uuidutils.is_uuid_like, strutils.bool_from_string   # harness access
     bad = []
     for _ in range(n):
-        u = uuidutils.generate_uuid()
-        p = uuidutils.generate_uuid(dashed=False)
-        if not re.match(r'[0-9a-f]{8}-[0-9a-f]{4}-[0-9a-f]{4}-[0-9a-f]{4}-[0-9a-f]{12}\Z', u) or \
+        u = _call(gen)
+        p = _call(gen, dashed=False)
+        if not isinstance(u, str) or not isinstance(p, str) or \
+                not re.match(r'[0-9a-f]{8}-[0-9a-f]{4}-[0-9a-f]{4}-[0-9a-f]{4}-[0-9a-f]{12}\Z', u) or \
                 not re.match(r'[0-9a-f]{32}\Z', p):
-            bad.append(({'fn': 'uuid', 'value': vstr(u)}, 'generate_uuid produced %r / %r' % (u, p)))
+            bad.append(({'fn': 'uuid', 'value': vstr(u if isinstance(u, str) else '')},
+                        'generate_uuid produced %r / %r' % (u, p)))
+            continue
         for s in (u, p, u.upper(), '{' + u + '}', 'urn:uuid:' + u):
-            if uuidutils.is_uuid_like(s) is not True:
+            if _call(like, s) is not True:
                 bad.append(({'fn': 'uuid', 'value': vstr(s)}, 'is_uuid_like rejects a spelling of generate_uuid output'))
     for b in (True, False):
         for strict in (True, False):
-            if strutils.bool_from_string(b, strict=strict, default=SENTINEL) is not b:
+            if _call(bfs, b, strict=strict, default=SENTINEL) is not b:
                 bad.append(({'fn': 'bool', 'value': V('bool', b), 'strict': strict}, 'bool not passed through'))
     for d in (True, False, None, 'x'):
-        if strutils.bool_from_string('maybe', default=d) is not d:
+        if _call(bfs, 'maybe', default=d) is not d:
             bad.append(({'fn': 'bool', 'value': vstr('maybe'), 'strict': False}, 'default %r not returned' % (d,)))
     return bad
 
